@@ -204,6 +204,33 @@ pub fn search(seed: u64, n: u64) {
         stats.case(&format!("ray_along_cut_step_edge A={:?} B={:?}", a, b), true);
         check_pair_x(&mut stats, &mut rng_l, &a, &b, "ray_along_cut_step_edge", 200, 200, false);
     }
+    // a straight side of one operand cutting a SHALLOW CAP off a circle (depth 7 .. 25 % of the radius, the cap towards +x, -x, +y or -y,
+    // inside one cubic section of the circle or across a joint of two): the chord and the arc join the same two crossing points, and
+    // whether they are "overlapping edges" must be decided by where the ray meets them, not by their end points alone (own stream;
+    // from seeded change C01-m10)
+    let mut rng_cap = Rng(seed ^ 0xCA9C01);
+    for k in 0..(60 + n / 8) {
+        let c = Coord2(rng_cap.r(30.0, 70.0), rng_cap.r(30.0, 70.0));
+        let r = rng_cap.r(4.0, 20.0);
+        let circ = if rng_cap.b() { circle(c.0, c.1, r) } else { circle45(c.0, c.1, r) };
+        let dir = [0.0, std::f64::consts::FRAC_PI_2, std::f64::consts::PI, 1.5 * std::f64::consts::PI][(k % 4) as usize] + rng_cap.r(-0.09, 0.09);
+        let (ux, uy) = (dir.cos(), dir.sin());
+        let dist = r * rng_cap.r(0.75, 0.93);
+        // the quadrilateral: the half plane behind the cutting side, closed far behind the circle, slightly irregular
+        let side_mid = Coord2(c.0 + ux * dist, c.1 + uy * dist);
+        let t = Coord2(-uy, ux);
+        let ext = r * rng_cap.r(1.3, 1.7);
+        let back = r * rng_cap.r(1.4, 2.2);
+        let j = |rng: &mut Rng| rng.r(-0.08, 0.08) * r;
+        let q = vec![side_mid + t * ext + Coord2(j(&mut rng_cap), j(&mut rng_cap)), side_mid - t * ext + Coord2(j(&mut rng_cap), j(&mut rng_cap)),
+                     side_mid - t * ext - Coord2(ux, uy) * (dist + back) + Coord2(j(&mut rng_cap), j(&mut rng_cap)), side_mid + t * ext - Coord2(ux, uy) * (dist + back) + Coord2(j(&mut rng_cap), j(&mut rng_cap))];
+        let mut qq = q.clone(); let rot = rng_cap.i(4) as usize; qq.rotate_left(rot); if rng_cap.b() { qq.reverse(); }
+        let (a, b) = (vec![redirect(&mut rng_cap, &circ)], vec![polygon(&qq)]);
+        let (a, b) = if k % 8 < 4 { (a, b) } else { (b, a) };
+        stats.count("pair.side_cuts_shallow_cap");
+        stats.case(&format!("side_cuts_shallow_cap A={:?} B={:?}", a, b), true);
+        check_pair_x(&mut stats, &mut rng_cap, &a, &b, "side_cuts_shallow_cap", 120, 120, false);
+    }
     // rectilinear operands (rectangles, L shapes) on PARITY-SEPARATED integer grids: every coordinate of the first operand is even, every
     // coordinate of the second one odd - they never share a vertex or a line, every contact is a transversal crossing inside two edges,
     // but the mid points of edges of one operand are often level with edges of the other one, so that classification rays run ALONG edges
